@@ -24,7 +24,7 @@ from ..ref import rootint as ri
 
 ID = 'C09'
 LEVEL = 'exploration'
-DECIDING = ['tap:find_root', 'tap:quad', 'roots_judged', 'integrals_judged', 'plain_number_integrals_judged', 'repeated_object_cases', 'histories_judged', 'function_histories_judged', 'degenerate_option_cases', 'scale_sweep_cases']
+DECIDING = ['tap:find_root', 'tap:quad', 'roots_judged', 'integrals_judged', 'plain_number_integrals_judged', 'repeated_object_cases', 'histories_judged', 'function_histories_judged', 'degenerate_option_cases', 'scale_sweep_cases', 'coincidence_cases']
 RULE = ('cases: find_root on 9 families (x^n-d, exp(ax)-d, a log x - d, tanh(ax)-d, monotone cubic; vector-valued d: d0 e^x - d1, d0 x^2 - d1, '
         'd0 x + d1 - d2, x^3 + d0 x - d1) with d given as Obs / list / array, entries on the same chains (identical / nested / overlapping '
         'lists, replica subsets), different ensembles or covariance inputs; quad on polynomial / exponential (also half line) / '
@@ -269,9 +269,14 @@ def root_problem(rng, name):
     raise ValueError(name)
 
 
-def shared(rng, o):
-    """the same object (70%) or an equal copy in a different object (30%) for a second slot"""
-    return o if rng.random() < 0.7 else 1.0 * o
+def shared(rng, o, allow_shift=True):
+    """the same object (60%), an equal copy in a different object with another tag (25%), or a copy shifted by 1e-12 (15%)"""
+    r = rng.random()
+    if r < 0.6:
+        return o
+    c = 1.0 * o if (r < 0.85 or not allow_shift) else o + 1e-12
+    c.tag = 'copy'
+    return c
 
 
 def case_root(ctx, rng, name, layout, repeat=None):
@@ -288,6 +293,10 @@ def case_root(ctx, rng, name, layout, repeat=None):
     if repeat is not None:
         spec[repeat[1]] = spec[repeat[0]]
     d = [ops.obs(m, w) for m, w in spec]
+    if ZERO_MEAN is not None:
+        for k_ in ZERO_MEAN:
+            d[k_] = d[k_] - d[k_].value
+        ctx.cell('find_root_zero_mean', name)
     if repeat is not None:
         # the same observable occupies two slots of d: the total derivative is the sum of the slot derivatives
         d[repeat[1]] = shared(rng, d[repeat[0]])
@@ -355,7 +364,8 @@ def case_root(ctx, rng, name, layout, repeat=None):
     # dense propagation with the analytic sensitivities
     ref, scale, snaps, rmeans = reference(d, s_exact, lambda v: inv(list(v), c))
     # natural size of a sensitivity (root / datum) as floor for slots whose own sensitivity vanishes (e.g. -x/d0 at x = 0)
-    gabs = [max(abs(g_), 1e-3 * scale_x / max(abs(v_), 1e-300)) for g_, v_ in zip(s_exact, dv)]
+    # (the root is only known to 1e-7 scale_x, so a sensitivity proportional to it, like -x/d0, to 1e-7 scale_x/|d| = rtol x 0.1 scale_x/|d|)
+    gabs = [max(abs(g_), 1e-1 * scale_x / max(abs(v_), 1e-300)) for g_, v_ in zip(s_exact, dv)]
     scale = max(scale, dense.delta_scale(snaps, gabs))
     gclean = tidy_cancellations(got, ref, snaps, gabs, 1e-6)
     t = ctx.trial()
@@ -478,7 +488,7 @@ def _integral_problem(rng, name, half_line=False):
 PSEL = ['none', 'some', 'all']
 
 
-def case_quad(ctx, rng, name, psel, a_obs, b_obs, layout, half_line=False, weight=None, repeat=None, spectator=None, force_kw=None):
+def case_quad(ctx, rng, name, psel, a_obs, b_obs, layout, half_line=False, weight=None, repeat=None, spectator=None, force_kw=None, coincide=None):
     import scipy.integrate
     pe = PE
     npar, p, a, b, c = integral_problem(rng, name, half_line)
@@ -536,11 +546,44 @@ def case_quad(ctx, rng, name, psel, a_obs, b_obs, layout, half_line=False, weigh
     elif repeat == 'pb':
         bin_ = shared(rng, pin[src])
     elif repeat == 'ab':
-        bin_ = shared(rng, ain)
+        bin_ = shared(rng, ain, allow_shift=False)      # (an interval of width 1e-12 only tests the cancellation in the closed form)
     if repeat is not None:
         pair = {'pp': (pin[src], pin[dst] if dst is not None else None), 'pa': (pin[src], ain), 'pb': (pin[src], bin_), 'ab': (ain, bin_)}[repeat]
         ctx.cell('quad_repeat', name, repeat, 'same_object' if pair[0] is pair[1] else 'equal_copy')
         ctx.count('repeated_object_cases')
+    if coincide is not None:
+        # coincidences of CENTRAL VALUES on different data, and central values exactly 0.0 with non-zero fluctuations
+        def with_mean(o, t):
+            return o - o.value + t
+        obs_p = [k_ for k_, x in enumerate(pin) if is_obs(x)]
+        if coincide == 'ab' and is_obs(ain) and is_obs(bin_):
+            bin_ = with_mean(bin_, float(ain.value))                       # a == b in value, different objects: the integral is 0, its error is not
+        elif coincide == 'pp' and len(obs_p) >= 2:
+            tgt = float(pin[1].value) if name != 'poly' else float(pin[obs_p[0]].value)
+            for k_ in obs_p:
+                pin[k_] = with_mean(pin[k_], tgt)
+        elif coincide == 'pa' and obs_p and is_obs(ain):
+            ain = with_mean(ain, float(pin[obs_p[-1]].value))
+            if is_obs(bin_):
+                bin_ = with_mean(bin_, float(ain.value) + 1.3)
+            elif not math.isinf(bin_):
+                bin_ = float(ain.value) + 1.3
+        elif coincide == 'zero_amplitude' and obs_p and obs_p[0] == 0:
+            pin[0] = with_mean(pin[0], 0.0)                                # amplitude exactly 0.0: integral 0, derivative with respect to it not
+        elif coincide == 'zero_limit' and (is_obs(ain) or is_obs(bin_)):
+            if is_obs(ain):
+                ain = with_mean(ain, 0.0)
+                if not is_obs(bin_) and not math.isinf(bin_):
+                    bin_ = 1.1
+                elif is_obs(bin_):
+                    bin_ = with_mean(bin_, 1.1)
+            else:
+                bin_ = with_mean(bin_, 0.0)
+                ain = -0.9 if not is_obs(ain) else ain
+        else:
+            raise Skip()
+        ctx.cell('quad_coincidence', name, coincide)
+        ctx.count('coincidence_cases')
     pv = [x.value if is_obs(x) else x for x in pin]
     av = ain.value if is_obs(ain) else ain
     bv = bin_.value if is_obs(bin_) else bin_
@@ -707,6 +750,47 @@ def case_quad_other_weight(ctx, rng, which):
     ctx.violation('quad:limit-terms-ignore-the-weight-function', {'weight': weight, 'wvar': wvar, 'limits': which,
                                                                    'note': 'returned a result although the limit term needs the weight function',
                                                                    'result': repr(got[0])[:80]})
+
+
+def case_root_zero(ctx, rng, name):
+    """data with central value exactly 0.0 and non-zero fluctuations (also in the first slot, which the library divides by)"""
+    global ZERO_MEAN
+    try:
+        ZERO_MEAN = {'tanh': [0], 'vec_linear': [1, 2], 'cubic': [0], 'vec_cubic': [1]}[name]
+        ctx.count('coincidence_cases')
+        case_root(ctx, rng, name, str(rng.choice(LAYOUTS)))
+    finally:
+        ZERO_MEAN = None
+
+
+ZERO_MEAN = None
+
+
+def case_root_plain_numpy(ctx, rng, where):
+    """documented rejection: residual functions have to use autograd.numpy.  A plain numpy function applied to d is reported with the
+    documented message, one applied to x fails inside the differentiation; in neither case may a result come back."""
+    pe = PE
+    ops = Operands(rng, ctx.tier, str(rng.choice(LAYOUTS)))
+    d = ops.obs(float(rng.uniform(0.6, 3.0)), 0.8)
+    func = (lambda x, dd: x ** 2 - np.sqrt(dd)) if where == 'd' else (lambda x, dd: np.exp(x) - dd)
+    ctx.cell('find_root_plain_numpy', where)
+    ctx.count('plain_numpy_cases')
+    try:
+        got = pe.roots.find_root(d, func, guess=1.0)
+    except Exception as e:
+        # a refusal is admissible (older autograd / numpy combinations cannot trace plain numpy functions)
+        ctx.count('plain_numpy_rejected:' + type(e).__name__)
+        if where == 'd':
+            ctx.require('autograd.numpy' in str(e), 'find_root:plain-numpy-on-d-not-reported-with-the-documented-message', {'error': repr(e)[:200]})
+        return
+    # with the installed autograd plain numpy ufuncs are traced: then the result has to be the right one
+    ctx.count('plain_numpy_accepted')
+    dv = float(d.value)
+    x_exact, sens_ = (dv ** 0.25, dv ** 0.25 / (4 * dv)) if where == 'd' else (math.log(dv), 1.0 / dv)
+    inv_ = (lambda v: v[0] ** 0.25) if where == 'd' else (lambda v: math.log(v[0]))
+    ref, scale, snaps, _ = reference([d], [sens_], inv_)
+    compare_obs(ctx, got, ref, 'find_root:plain-numpy-residual', scale=scale, rtol=1e-6, vtol=1e-7, what='numpy function on ' + where, value_scale=abs(x_exact))
+    ctx.nontrivial.add(digest('plainnumpy', where, dv))
 
 
 def case_function_history(ctx, rng, what, name):
@@ -905,6 +989,13 @@ def plan(tier):
         for pos in ('first', 'last'):
             p.append(('quadspec:%s:%s' % (name, pos), 9 * m))
     p.append(('quadmany', 10 * m))
+    for fam in ri.INTEGRANDS:
+        for co in ('ab', 'pp', 'pa', 'zero_amplitude', 'zero_limit'):
+            p.append(('quadcoinc:%s:%s' % (fam, co), 5 * m))
+    for name in ('tanh', 'vec_linear', 'cubic', 'vec_cubic'):
+        p.append(('rootzero:%s' % name, 8 * m))
+    for where in ('d', 'x'):
+        p.append(('rootnumpy:%s' % where, 26 * m))
     for row in OPTION_ROWS:
         p.append(('quadopt:%s' % row, 24 * m))
     for fam in ri.INTEGRANDS:
@@ -946,6 +1037,14 @@ def run_case(ctx, kind, idx, rng):
         case_quad_scale(ctx, rng, k[1])
     elif k[0] == 'rootscale':
         case_root_scale(ctx, rng, k[1])
+    elif k[0] == 'quadcoinc':
+        co = k[2]
+        case_quad(ctx, rng, k[1], 'all', co in ('ab', 'pa', 'zero_limit') or bool(rng.integers(0, 2)), co in ('ab',) or bool(rng.integers(0, 2)),
+                  str(rng.choice(['same', 'different', 'covariance'])), coincide=co)
+    elif k[0] == 'rootzero':
+        case_root_zero(ctx, rng, k[1])
+    elif k[0] == 'rootnumpy':
+        case_root_plain_numpy(ctx, rng, k[1])
     elif k[0] == 'quadmany':
         # more than ten parameters (numbered by position)
         try:
